@@ -9,6 +9,14 @@ def bmc(quick, thorough, reach=(), **kw):
     d.update(kw)
     return d
 
+RED = {"reservedvar": 0, "taskerr": 0, "taskcancel": 0}
+
+def bmcB(reach=()):
+    # longer histories over the reduced alphabet (schedule, cancel, return, cancel goroutine, timer)
+    q = dict(RED, K=5, N=4)
+    th = dict(RED, K=6, N=4)
+    return bmc(q, th, reach=reach)
+
 L3_ASSUME = [
     "L3: every PipelineRunner method body is atomic (it runs under r.mx; that discipline is property C13)",
     "Scheduler.Schedule is replaced by the most general stub allowed by the scheduler contract G2 (checked at L2, property C02/C04/C08 checks)",
@@ -49,20 +57,20 @@ L2RUN = l2({"stages": 2}, {"stages": 3}, {"preempt": 2}, {"preempt": 1}, reach=[
 
 CHECKS = {
     "C01": {"prefixes": ["C01."], "assumptions": L3_ASSUME, "validate_samples": {"quick": 1, "thorough": 3},
-            "runs": [bmc({"K": 4, "N": 4}, {"K": 5, "N": 4}, reach=["spawn.concurrent>1", "end"])]},
+            "runs": [bmc({"K": 4, "N": 4}, {"K": 5, "N": 4}, reach=["spawn.concurrent>1", "end"]), bmcB(reach=["end"])]},
     "C02": {"prefixes": ["C02."], "assumptions": L3_ASSUME + L2_ASSUME, "validate_samples": {"quick": 1, "thorough": 3},
             "runs": [bmc({"K": 4, "N": 4}, {"K": 5, "N": 4}, reach=["end"]), L2RUN]},
     "C03": {"prefixes": ["C03."], "assumptions": L3_ASSUME, "validate_samples": {"quick": 1, "thorough": 3},
-            "runs": [bmc({"K": 4, "N": 4}, {"K": 5, "N": 4}, reach=["state.waiting", "cancel.waiting"]),
+            "runs": [bmc({"K": 4, "N": 4}, {"K": 5, "N": 4}, reach=["state.waiting", "cancel.waiting"]), bmcB(reach=["state.three-waiting"]),
                      bmc({"K": 4, "N": 3, "reloads": 1, "reservedvar": 0, "taskerr": 0}, {"K": 5, "N": 3, "reloads": 1, "taskerr": 0}, reach=["reload"])]},
     "C04": {"prefixes": ["C04."], "assumptions": L3_ASSUME + L2_ASSUME, "validate_samples": {"quick": 1, "thorough": 3},
             "runs": [bmc({"K": 4, "N": 4}, {"K": 5, "N": 4}, reach=["cancel.waiting", "cancel.running", "cancel.already-canceled", "cancel.completed"]), L2RUN]},
     "C05": {"prefixes": ["C05."], "assumptions": L3_ASSUME, "validate_samples": {"quick": 1, "thorough": 3},
-            "runs": [bmc({"K": 4, "N": 4}, {"K": 5, "N": 4}, reach=["sched.start", "sched.append", "sched.replace", "sched.reject-full", "sched.reject-noqueue"])]},
+            "runs": [bmc({"K": 4, "N": 4}, {"K": 5, "N": 4}, reach=["sched.start", "sched.append", "sched.replace", "sched.reject-full", "sched.reject-noqueue"]), bmcB(reach=["sched.replace"])]},
     "C06": {"prefixes": ["C06."], "assumptions": L3_ASSUME, "validate_samples": {"quick": 1, "thorough": 3},
-            "runs": [bmc({"K": 4, "N": 4}, {"K": 5, "N": 4}, reach=["spawn.third-or-later-job"])]},
+            "runs": [bmc({"K": 4, "N": 4}, {"K": 5, "N": 4}, reach=["spawn.third-or-later-job"]), bmcB(reach=["spawn.third-or-later-job", "state.three-waiting"])]},
     "C07": {"prefixes": ["C07."], "assumptions": L3_ASSUME, "validate_samples": {"quick": 1, "thorough": 3},
-            "runs": [bmc({"K": 4, "N": 4}, {"K": 5, "N": 4}, reach=["sched.delayed", "spawn.delayed-job", "sched.replace"])]},
+            "runs": [bmc({"K": 4, "N": 4}, {"K": 5, "N": 4}, reach=["sched.delayed", "spawn.delayed-job", "sched.replace"]), bmcB(reach=["spawn.delayed-job", "sched.replace"])]},
     "C15": {"prefixes": ["C15."], "assumptions": L3_ASSUME, "validate_samples": {"quick": 1, "thorough": 3},
             "runs": [bmc({"K": 4, "N": 4}, {"K": 5, "N": 4}, reach=["end"])]},
     "C16": {"prefixes": ["C16."], "assumptions": L3_ASSUME, "validate_samples": {"quick": 1, "thorough": 3},
